@@ -49,7 +49,13 @@ func genFSScript(r *world.PRNG) []fsOp {
 	var ops []fsOp
 	n := r.Range(8, 40)
 	for i := 0; i < n; i++ {
-		switch r.Intn(16) {
+		switch r.Intn(17) {
+		case 16:
+			q := pick()
+			if r.Chance(1, 2) {
+				q = pick() + "/" + pick()
+			}
+			ops = append(ops, fsOp{op: "evalsymlinks", a: q})
 		case 0, 1:
 			ops = append(ops, fsOp{op: "mkdir", a: pick()})
 		case 2, 3, 4:
@@ -135,6 +141,7 @@ type fsAPI struct {
 	readlink  func(string) (string, error)
 	open      func(string, int, []byte) (string, error)
 	walk      func(string, func(string, fs.FileInfo, error) error) error
+	evalSym   func(string) (string, error)
 }
 
 func realAPI(root string) fsAPI {
@@ -168,7 +175,8 @@ func realAPI(root string) fsAPI {
 			}
 			return string(b[:n]), err
 		},
-		walk: func(r string, f func(string, fs.FileInfo, error) error) error { return filepath.Walk(r, f) },
+		walk:    func(r string, f func(string, fs.FileInfo, error) error) error { return filepath.Walk(r, f) },
+		evalSym: filepath.EvalSymlinks,
 	}
 }
 
@@ -203,7 +211,8 @@ func simAPI(root string) fsAPI {
 			}
 			return string(b[:n]), err
 		},
-		walk: func(r string, f func(string, fs.FileInfo, error) error) error { return simfp.Walk(r, f) },
+		walk:    func(r string, f func(string, fs.FileInfo, error) error) error { return simfp.Walk(r, f) },
+		evalSym: simfp.EvalSymlinks,
 	}
 }
 
@@ -253,6 +262,9 @@ func runFSScript(api fsAPI, ops []fsOp) []string {
 		case "readlink":
 			t, err := api.readlink(p(o.a))
 			line = errnoOf(err) + " " + t
+		case "evalsymlinks":
+			t, err := api.evalSym(p(o.a))
+			line = errnoOf(err) + " " + strings.TrimPrefix(t, api.root)
 		case "open":
 			s, err := api.open(p(o.a), o.flag, o.data)
 			line = errnoOf(err) + " " + s
@@ -385,6 +397,9 @@ func fidelityCLI(p *Program, job *Job, st *Stats) []string {
 			case "symlink":
 				os.MkdirAll(filepath.Dir(rp), 0o755)
 				os.Symlink(mapP(nd.Target), rp)
+			case "hardlink":
+				os.MkdirAll(filepath.Dir(rp), 0o755)
+				os.Link(mapP(nd.Target), rp)
 			}
 		}
 		var args []string
